@@ -186,8 +186,9 @@ Definition tree_eq (a b : tree) : Prop := forall p, alookup beqb p a = alookup b
 (* sequential layer (DESIGN.md C01 layer 1): every operation on a normal path that leaves the root alone, each
    followed by a full drain of the Pipeline model (ARead of the whole kernel queue, then AEmit / ATick until the
    delay queue is empty).
-   MISSING relative to C01_sequential_partial: (a) the operation kinds outside covered_op - a directory moved into the
-   tree (synthetic created events for its content), a directory moved out, a directory renamed over an empty directory,
+   MISSING relative to C01_sequential_partial: (a) the operation kinds outside c01_x - a directory moved into the
+   tree (synthetic created events for its content), a directory moved out onto an existing name, a directory renamed
+   over an empty directory, an operation inside a directory that has just left the tree (before the next record),
    directory renames under a non-recursive watch or entirely outside the tree (C02 covers their watch state, their
    replay is not proved), Chmod of the root; (b) [seq_run]'s drain (AEmit / ATick driven by the queue) instead of the
    fixed block shape of C01_sequential_pipeline_partial. *)
